@@ -17,6 +17,7 @@ import (
 	"io"
 	"math/rand"
 	"sort"
+	"strings"
 	"sync"
 	"time"
 
@@ -136,12 +137,13 @@ func nhScenarioImport(rec *nhRec, tid int, seed int64, smType string, store stri
 	rec.t = tid
 	rng := rand.New(rand.NewSource(seed*19 + 3))
 	cs := nhImportCases[tid%len(nhImportCases)]
-	hist := []string{"plain", "removed3", "nv4", "removed3+nv4"}[(tid/len(nhImportCases)+tid)%4]
-	if cs == "readd_removed" && hist != "removed3" && hist != "removed3+nv4" {
+	hist := []string{"plain", "removed3", "nv4", "removed3+nv4", "w4", "plain+ss", "removed3+ss", "w4+ss", "nv4+ss"}[(tid/len(nhImportCases)+tid)%9]
+	has := func(s string) bool { return strings.Contains(hist, s) }
+	if cs == "readd_removed" && !has("removed3") {
 		hist = "removed3"
 	}
-	if cs == "kind_changed" && hist != "nv4" && hist != "removed3+nv4" {
-		hist = "nv4"
+	if cs == "kind_changed" && !has("nv4") && !has("w4") {
+		hist = []string{"nv4", "w4"}[tid%2]
 	}
 	c := newNhCluster(rec, 8, smType, store, seed) // hosts 5..8 are spare machines
 	r := &nhRun{c: c, p: nhParams{hosts: 8, opTimeout: 500 * time.Millisecond}, hmu: make([]sync.RWMutex, 8), done: map[int]bool{}}
@@ -206,19 +208,24 @@ func nhScenarioImport(rec *nhRec, tid int, seed int64, smType string, store stri
 		}
 		return false
 	}
-	if hist == "nv4" || hist == "removed3+nv4" {
+	if has("nv4") || has("w4") {
 		h4 := c.host(4)
+		witness := has("w4")
 		if !cc(func(nh *NodeHost, ctx context.Context) error {
+			if witness {
+				return nh.SyncRequestAddWitness(ctx, c.shard, 4, h4.addr, 0)
+			}
 			return nh.SyncRequestAddNonVoting(ctx, c.shard, 4, h4.addr, 0)
 		}) {
-			fail("add non-voting failed")
+			fail("add non-voting / witness failed")
 			return
 		}
 		voters := 3
 		old := c.cfgOf
 		c.cfgOf = func(replica uint64) config.Config {
 			cfg := old(replica)
-			cfg.IsNonVoting = int(replica) > voters
+			cfg.IsNonVoting = int(replica) > voters && !witness
+			cfg.IsWitness = int(replica) > voters && witness
 			return cfg
 		}
 		if err := c.startHost(h4); err != nil {
@@ -229,7 +236,7 @@ func nhScenarioImport(rec *nhRec, tid int, seed int64, smType string, store stri
 		}
 		h4.joined = true
 	}
-	if hist == "removed3" || hist == "removed3+nv4" {
+	if has("removed3") {
 		if !cc(func(nh *NodeHost, ctx context.Context) error {
 			return nh.SyncRequestDeleteReplica(ctx, c.shard, 3, 0)
 		}) {
@@ -261,6 +268,18 @@ func nhScenarioImport(rec *nhRec, tid int, seed int64, smType string, store stri
 	if oldm == nil {
 		fail("could not read membership")
 		return
+	}
+	if has("+ss") {
+		// every running replica takes a regular snapshot at the quiet point: the export will
+		// be at an index for which the replicas already own a snapshot record
+		for _, h := range c.hosts[:4] {
+			if nh := r.nhOf(h.id); nh != nil && !(h.id == 4 && has("w4")) {
+				ctx, cancel := context.WithTimeout(context.Background(), 2*time.Second)
+				_, _ = nh.SyncRequestSnapshot(ctx, c.shard, SnapshotOption{OverrideCompactionOverhead: true,
+					CompactionOverhead: uint64(rng.Intn(2))})
+				cancel()
+			}
+		}
 	}
 	eh := c.host(exporter)
 	if err := fileutil.MkdirAll("/export", eh.fs); err != nil {
